@@ -62,6 +62,31 @@ func init() {
 				e.emit("%sa %s", op, h)
 			}
 		}
+		// deep nesting where every level has an earlier sibling container (pooled child readers are
+		// reused along the way): the reader's own depth limit must still apply
+		for _, dp := range []int{9999, 10000, 10001, 12000} {
+			var sb strings.Builder
+			for i := 0; i < dp; i++ {
+				sb.WriteString("[[],")
+			}
+			sb.WriteString("1")
+			sb.WriteString(strings.Repeat("]", dp))
+			e.emit("rvc %s", hs([]byte(sb.String())))
+			sb.Reset()
+			for i := 0; i < dp; i++ {
+				sb.WriteString(`{"a":{},"b":`)
+			}
+			sb.WriteString("1")
+			sb.WriteString(strings.Repeat("}", dp))
+			e.emit("rvc %s", hs([]byte(sb.String())))
+			sb.Reset()
+			for i := 0; i < dp/2; i++ {
+				sb.WriteString(`[{},{"x":[1],"y":`)
+			}
+			sb.WriteString("null")
+			sb.WriteString(strings.Repeat("}]", dp/2))
+			e.emit("rvc %s", hs([]byte(sb.String())))
+		}
 		// typed entry points on every token class (null rejected)
 		for _, tk := range []string{"null", " null", "true", "1", `"s"`, "[]", "{}", "[null]", `{"a":null}`, "", " ", "x", "nul", "[", "{", `{"a"}`, "[1,]", `{"a":1,}`} {
 			for _, op := range []string{"rv", "ro", "ra", "rvc", "roc", "rac", "rva", "roa", "raa"} {
@@ -143,6 +168,13 @@ func init() {
 							e.emit("rhist %s:%s %s:%s %s:%s", op1, hs([]byte(sm)), op2, lm, op1, hs([]byte(sm)))
 						}
 					}
+				}
+			}
+		}
+		for _, bad := range []string{"[1,", `{"a":`, "[[[", `{"a":[1,{"b":`, "[1e999]", `{"k":tru}`} {
+			for _, op := range []string{"ra", "ro", "rv"} {
+				for _, nl := range []string{"null", " \t\r\nnull", "null,"} {
+					e.emit("rhist %s:%s %s:%s ra:%s ro:%s rv:%s", op, hs([]byte(bad)), op, hs([]byte(nl)), hs([]byte(nl)), hs([]byte(nl)), hs([]byte(nl)))
 				}
 			}
 		}
